@@ -23,6 +23,7 @@ package event
 // answered.
 //@ func ForwardEvent
 //@   prop C11 C10
+//@   flag callbacks
 //@   requires eventConsumers != nil
 //@   flag nonblocking
 //@   flag emits opaque+calls
